@@ -553,7 +553,7 @@ def run(ctx):
 
     # ---- transform of a source that carries markers: ICC profile in k chunks (any chunking is legal; every chunk costs
     #      18 bytes that tj3TransformBufSize does not count), COM / APP1 markers copied by the default TJPARAM_SAVEMARKERS
-    ml_ = []
+    ml_ = [l for l in corpus if l.startswith("xmk ")]
     for k, payload in ((1, 2550), (2, 2550), (10, 3000), (79, 2550), (114, 2550), (255, 2550), (255, 70000), (3, 140000)):
         for save in range(5):
             for cn in (0, 1):
